@@ -503,7 +503,8 @@ def _keygen(func, ignored, /, *args, **kwds):
             kwonly = getattr(inspect.getfullargspec(func), 'kwonlyargs', None) or ()
         except TypeError:
             kwonly = ()
-        [user_kwds.pop(k) for k in kwds if k not in explicitly_named and k not in kwonly]
+        # (also a varkwd that a partial presets, which is among the 'defaults')
+        [user_kwds.pop(k) for k in list(user_kwds) if k not in explicitly_named and k not in kwonly]
 
     # NULL out args that are NULL'ed as kwds, and vice-versa 
 #   if crossref:
